@@ -1,5 +1,7 @@
 import DFV.Lemmas.C04
 import DFV.Lemmas.C04Spec
+import DFV.Lemmas.C04Fld
+import DFV.Lemmas.C04Cyc
 /-!
 # C04 — derivatives are exact on low-degree polynomials, linear, and blind across gaps
 
@@ -1096,5 +1098,1011 @@ periodic, the axis `xy` is not -/
 example : periodicAx exFXY 0 = true ∧ periodicAx exFXY 1 = true ∧ periodicAx exFXY 2 = false ∧
     (exFXY.mesh.region.dims.getD 2 "").toList.length ≠ 1 ∧ ∃ g, diff exFXY 2 1 true = .ok g :=
   ⟨by decide, by decide, periodicAx_multichar_open exFXY 2 (by decide), by decide, ⟨_, rfl⟩⟩
+
+/-! # Second extension round: periodic axes for every mask, both kinds of axis at field level, acceptance -/
+
+/-! ## Periodic lines, every mask: the ring-level spec (known finding D17 stated exactly) -/
+
+/-- **What `Field.diff` computes along a periodic line, for every mask — ONE statement that covers the
+runs crossing the seam.**  At an invalid cell 0.  At a valid cell `j` the run stencil over the cells
+`ringBefore` before `j` and `ringFrom` from `j` on, read off the ring cyclically, where these counts
+are the valid cells around `j` INSIDE THE STORED LINE plus — when they reach the start (the end) of
+the stored line — exactly ONE more cell from the other side of the seam if that cell is valid.  A
+ring run that crosses the seam is therefore cut one cell beyond the seam (known finding D17); a run
+that does not touch the seam, and a fully valid ring, are differentiated as the property says. -/
+theorem diffRing_refines_ringSpec (o : Nat) (h : Rat) (cells : List (Rat × Bool)) (j : Nat) (hj : j < cells.length) :
+    (diffRing o h cells).getD j 0 = ringSpec o h cells.length (valOf cells) (okOf cells) j :=
+  diffRing_getD_ringSpec o h cells j hj
+
+/-- **Every line as `Field.diff` differentiates it — open or periodic, restricted to valid cells or
+not, every mask — computes `lineSpec`**: 0 at a cell that counts as invalid, otherwise the run stencil
+over the window `winB` cells before and `winA` cells from the cell on (`runBefore`/`runFrom` on an open
+line, `ringBefore`/`ringFrom` on a periodic one; with the restriction off every cell counts as valid). -/
+theorem diffLine'_refines_lineSpec (p r : Bool) (o : Nat) (h : Rat) (cells : List (Rat × Bool)) (j : Nat)
+    (hj : j < cells.length) :
+    (diffLine' p r o h cells).getD j 0 = lineSpec p r o h cells.length (valOf cells) (okOf cells) j :=
+  diffLine'_getD_lineSpec p r o h cells j hj
+
+/-- **A cell whose run does not cross the seam is differentiated as on the open line**: if the valid
+cells before `j` do not reach the start of the stored line or the last cell is invalid, and the valid
+cells from `j` on do not reach its end or the first cell is invalid, periodic and open results agree
+at `j` (generalises `ring_inner_run`, `ring_open_if_first_invalid`, `ring_open_if_last_invalid`). -/
+theorem ring_cell_off_seam (o : Nat) (h : Rat) (cells : List (Rat × Bool)) (j : Nat) (hj : j < cells.length)
+    (hb : runBefore (okOf cells) j < j ∨ okOf cells (cells.length - 1) = false)
+    (ha : j + runFrom (okOf cells) cells.length j < cells.length ∨ okOf cells 0 = false) :
+    (diffRing o h cells).getD j 0 = (diffLine o h cells).getD j 0 := by
+  rw [diffRing_getD_ringSpec o h cells j hj, diffLine_getD_spec o h cells j hj, diffSpec_eq_winSpec _ _ _ _ _ _ hj,
+    ringSpec_eq_winSpec]
+  have eB : ringBefore (okOf cells) cells.length j = runBefore (okOf cells) j := by
+    unfold ringBefore
+    split
+    · rename_i heq
+      rcases hb with hb | hb
+      · omega
+      · rw [hb]; simp; omega
+    · rfl
+  have eA : ringFrom (okOf cells) cells.length j = runFrom (okOf cells) cells.length j := by
+    unfold ringFrom
+    split
+    · rcases ha with ha | ha
+      · omega
+      · rw [ha]; simp
+    · rfl
+  unfold winSpec winIdx winB winA
+  simp only [if_true, Bool.false_eq_true, if_false, eB, eA]
+
+/-- **Short runs on a periodic line yield zero**: a cell whose differentiated run (its run in the
+stored line plus at most one cell beyond the seam on each side) has at most `order` cells gets 0. -/
+theorem ring_short_run_zero (o : Nat) (ho : o = 1 ∨ o = 2) (h : Rat) (cells : List (Rat × Bool)) (j : Nat)
+    (hj : j < cells.length)
+    (hs : ringBefore (okOf cells) cells.length j + ringFrom (okOf cells) cells.length j ≤ o) :
+    (diffRing o h cells).getD j 0 = 0 := by
+  rw [diffRing_getD_ringSpec o h cells j hj]
+  unfold ringSpec
+  split
+  · exact dAt_short o ho h _ hs _ _
+  · rfl
+
+/-- **Locality on a periodic line, index form, every mask**: two rings of the same length with the same
+validity whose values agree on the window of cell `j` (`ringBefore` cells before it, `ringFrom` from
+it on, positions taken cyclically) have the same derivative at `j` — whatever they hold elsewhere. -/
+theorem ring_locality (o : Nat) (h : Rat) (c1 c2 : List (Rat × Bool)) (j : Nat) (hl : c1.length = c2.length)
+    (hj : j < c1.length) (hv : ∀ k, k < c1.length → okOf c1 k = okOf c2 k)
+    (hx : ∀ k, k < ringBefore (okOf c1) c1.length j + ringFrom (okOf c1) c1.length j →
+      valOf c1 ((j + c1.length - ringBefore (okOf c1) c1.length j + k) % c1.length)
+        = valOf c2 ((j + c1.length - ringBefore (okOf c1) c1.length j + k) % c1.length)) :
+    (diffRing o h c1).getD j 0 = (diffRing o h c2).getD j 0 := by
+  rw [diffRing_getD_ringSpec o h c1 j hj, diffRing_getD_ringSpec o h c2 j (by omega), ← hl]
+  have eB : ringBefore (okOf c1) c1.length j = ringBefore (okOf c2) c1.length j := winB_congr true _ _ _ j hj hv
+  have eA : ringFrom (okOf c1) c1.length j = ringFrom (okOf c2) c1.length j := winA_congr true _ _ _ j hj hv
+  unfold ringSpec
+  rw [← hv j hj, ← eB, ← eA]
+  split
+  · rename_i hvj
+    have := ringFrom_pos (okOf c1) c1.length j hj hvj
+    exact dAt_congr _ _ _ _ _ _ (fun k hk => hx k hk) (by omega)
+  · rfl
+
+/-! ## Cyclic shifts: exactly which masks admit equivariance -/
+
+/-- **On a fully valid ring the derivative of the rotated ring is the rotated derivative** (position
+form of `ring_shift`: the ring stored from cell `s` on). -/
+theorem ring_rot_all_valid (o : Nat) (h : Rat) (cells : List (Rat × Bool)) (s j : Nat) (hj : j < cells.length)
+    (hall : ∀ k, k < cells.length → okOf cells k = true) :
+    (diffRing o h (rotCells cells s)).getD j 0 = (diffRing o h cells).getD ((j + s) % cells.length) 0 :=
+  ring_rot_allValid o h cells s j hj hall
+
+/-- **… and on a ring without three cyclically consecutive valid cells** (every ring run has at most
+two cells, wherever the seam is): every rotation commutes with the derivative, for every mask of
+that kind, all data, both orders. -/
+theorem ring_rot_no_three (o : Nat) (ho : o = 1 ∨ o = 2) (h : Rat) (cells : List (Rat × Bool)) (s j : Nat)
+    (hj : j < cells.length) (h3 : noThree (okOf cells) cells.length) :
+    (diffRing o h (rotCells cells s)).getD j 0 = (diffRing o h cells).getD ((j + s) % cells.length) 0 :=
+  ring_rot_noThree o ho h cells s j hj h3
+
+/-- **Shift-equivariance holds for EXACTLY these masks.**  For a mask `m` (any length), order 1 or 2
+and step `h ≠ 0`: the periodic derivative commutes with every rotation of the stored ring for all
+data with that validity pattern IF AND ONLY IF every cell is valid or the mask has no three
+cyclically consecutive valid cells.  For every other mask (a ring run of three or more cells next to
+an invalid cell) there are data and a rotation for which it fails — known finding D17, delimited
+exactly. -/
+theorem ring_shift_iff (o : Nat) (ho : o = 1 ∨ o = 2) (h : Rat) (hh : h ≠ 0) (m : List Bool) :
+    (∀ (cells : List (Rat × Bool)), cells.map (·.2) = m → ∀ s j, j < m.length →
+        (diffRing o h (rotCells cells s)).getD j 0 = (diffRing o h cells).getD ((j + s) % m.length) 0)
+      ↔ ((∀ k, k < m.length → m.getD k false = true) ∨ noThree (fun k => m.getD k false) m.length) := by
+  have hok : ∀ (cells : List (Rat × Bool)), cells.map (·.2) = m → ∀ k, okOf cells k = m.getD k false := by
+    intro cells hm k
+    subst hm
+    unfold okOf
+    simp only [List.getD_eq_getElem?_getD, List.getElem?_map]
+    cases cells[k]? <;> rfl
+  have hlen : ∀ (cells : List (Rat × Bool)), cells.map (·.2) = m → cells.length = m.length := by
+    intro cells hm; subst hm; simp
+  constructor
+  · intro H
+    apply Classical.byContradiction
+    intro hnot
+    have hnall : ¬ (∀ k, k < m.length → m.getD k false = true) := fun ha => hnot (Or.inl ha)
+    have hn3 : ¬ noThree (fun k => m.getD k false) m.length := fun ha => hnot (Or.inr ha)
+    -- an invalid cell and three consecutive valid cells
+    obtain ⟨k0, hk0, hbad⟩ : ∃ k0, k0 < m.length ∧ m.getD k0 false = false := by
+      apply Classical.byContradiction
+      intro hne
+      apply hnall
+      intro k hk
+      cases hv : m.getD k false with
+      | true => rfl
+      | false => exact absurd ⟨k, hk, hv⟩ hne
+    obtain ⟨c, hc, h3⟩ : ∃ c, c < m.length ∧ (m.getD c false = true ∧ m.getD ((c + 1) % m.length) false = true
+        ∧ m.getD ((c + 2) % m.length) false = true) := by
+      apply Classical.byContradiction
+      intro hne
+      apply hn3
+      intro j hj hc
+      exact hne ⟨j, hj, hc⟩
+    obtain ⟨e, he, hv, hp, hp2, hs⟩ := exists_run_end (fun k => m.getD k false) m.length k0 hk0 hbad c
+      (by rw [Nat.mod_eq_of_lt hc]; exact h3)
+    -- data: 1 at cell e, 0 elsewhere
+    let cells : List (Rat × Bool) := tab m.length fun k => ((if k = e then 1 else 0 : Rat), m.getD k false)
+    have hm : cells.map (·.2) = m := by
+      apply List.ext_getElem
+      · simp [cells]
+      · intro i h1 h2
+        simp [cells, tab, List.getD_eq_getElem?_getD, List.getElem?_eq_getElem h2]
+    have hcl : cells.length = m.length := hlen cells hm
+    have hx : ∀ k, k < cells.length → valOf cells k = if k = e then 1 else 0 := by
+      intro k hk
+      unfold valOf
+      rw [getD_tab _ _ _ _ (by rw [← hcl]; exact hk)]
+    have hfail := ring_rot_fails o ho h hh cells e (by rw [hcl]; exact he)
+      (by rw [hok cells hm]; exact hv) (by rw [hok cells hm, hcl]; exact hp) (by rw [hok cells hm, hcl]; exact hp2)
+      (by rw [hok cells hm, hcl]; exact hs) hx
+    apply hfail
+    have hL : 0 < m.length := by omega
+    rw [hcl, H cells hm (e + 1) (m.length - 1) (by omega), H cells hm e 0 hL]
+    congr 1
+    rw [show m.length - 1 + (e + 1) = e + m.length by omega, Nat.add_mod_right, Nat.zero_add]
+  · rintro (hall | h3) cells hm s j hj
+    · have hcl := hlen cells hm
+      rw [← hcl]
+      exact ring_rot_allValid o h cells s j (by rw [hcl]; exact hj) (fun k hk => by rw [hok cells hm]; exact hall k (by rw [← hcl]; exact hk))
+    · have hcl := hlen cells hm
+      rw [← hcl]
+      apply ring_rot_noThree o ho h cells s j (by rw [hcl]; exact hj)
+      rw [hcl, show okOf cells = fun k => m.getD k false from funext (hok cells hm)]
+      exact h3
+
+
+/-! ## Line level, every kind of line: zeros on short runs, exactness on every window -/
+
+/-- **Runs of length 1, and runs of length 2 for the second derivative, yield zero on every kind of line**
+(open or periodic, restricted or not): a cell whose window has at most `order` cells gets 0. -/
+theorem line_short_run_zero (p r : Bool) (o : Nat) (ho : o = 1 ∨ o = 2) (h : Rat) (cells : List (Rat × Bool)) (j : Nat)
+    (hj : j < cells.length)
+    (hs : winB p (effOk r (okOf cells)) cells.length j + winA p (effOk r (okOf cells)) cells.length j ≤ o) :
+    (diffLine' p r o h cells).getD j 0 = 0 := by
+  rw [diffLine'_getD_lineSpec p r o h cells j hj]
+  unfold lineSpec winSpec
+  split
+  · exact dAt_short o ho h _ hs _ _
+  · rfl
+
+/-- **First derivative, window of ≥ 3 cells, every kind of line: exact for polynomials of degree ≤ 2** at
+every position of the window (first cell, interior, last cell), any step `h ≠ 0`, any mask. -/
+theorem line_exact_d1 (p r : Bool) (h : Rat) (hh : h ≠ 0) (cells : List (Rat × Bool)) (j : Nat) (hj : j < cells.length)
+    (hv : effOk r (okOf cells) j = true)
+    (hlen : 3 ≤ winB p (effOk r (okOf cells)) cells.length j + winA p (effOk r (okOf cells)) cells.length j)
+    (a0 b0 c0 x0 : Rat)
+    (hx : ∀ k, k < winB p (effOk r (okOf cells)) cells.length j + winA p (effOk r (okOf cells)) cells.length j →
+      valOf cells (winIdx p (effOk r (okOf cells)) cells.length j k)
+        = a0 + b0 * (x0 + (k : Rat) * h) + c0 * (x0 + (k : Rat) * h) ^ 2) :
+    (diffLine' p r 1 h cells).getD j 0
+      = b0 + 2 * c0 * (x0 + (winB p (effOk r (okOf cells)) cells.length j : Rat) * h) := by
+  rw [diffLine'_getD_lineSpec p r 1 h cells j hj]
+  unfold lineSpec winSpec
+  rw [if_pos hv, dAt_congr 1 _ _ _ _ _ hx (win_pos p r cells j hj hv)]
+  unfold dAt
+  simp only [if_true]
+  exact d1_exact a0 b0 c0 x0 h hh _ hlen _ (win_pos p r cells j hj hv)
+
+/-- **First derivative, window of exactly two cells: exact for polynomials of degree ≤ 1** -/
+theorem line_exact_d1_two (p r : Bool) (h : Rat) (hh : h ≠ 0) (cells : List (Rat × Bool)) (j : Nat) (hj : j < cells.length)
+    (hv : effOk r (okOf cells) j = true)
+    (hlen : winB p (effOk r (okOf cells)) cells.length j + winA p (effOk r (okOf cells)) cells.length j = 2)
+    (a0 b0 x0 : Rat)
+    (hx : ∀ k, k < 2 → valOf cells (winIdx p (effOk r (okOf cells)) cells.length j k) = a0 + b0 * (x0 + (k : Rat) * h)) :
+    (diffLine' p r 1 h cells).getD j 0 = b0 := by
+  rw [diffLine'_getD_lineSpec p r 1 h cells j hj]
+  unfold lineSpec winSpec
+  have hp := win_pos p r cells j hj hv
+  rw [if_pos hv]
+  rw [hlen] at hp ⊢
+  rw [dAt_congr 1 _ _ _ _ _ hx hp]
+  unfold dAt
+  simp only [if_true]
+  exact d1_exact_two a0 b0 x0 h hh _
+
+/-- **Second derivative, window of ≥ 4 cells: exact for polynomials of degree ≤ 3** -/
+theorem line_exact_d2 (p r : Bool) (h : Rat) (hh : h ≠ 0) (cells : List (Rat × Bool)) (j : Nat) (hj : j < cells.length)
+    (hv : effOk r (okOf cells) j = true)
+    (hlen : 4 ≤ winB p (effOk r (okOf cells)) cells.length j + winA p (effOk r (okOf cells)) cells.length j)
+    (a0 b0 c0 d0 x0 : Rat)
+    (hx : ∀ k, k < winB p (effOk r (okOf cells)) cells.length j + winA p (effOk r (okOf cells)) cells.length j →
+      valOf cells (winIdx p (effOk r (okOf cells)) cells.length j k)
+        = a0 + b0 * (x0 + (k : Rat) * h) + c0 * (x0 + (k : Rat) * h) ^ 2 + d0 * (x0 + (k : Rat) * h) ^ 3) :
+    (diffLine' p r 2 h cells).getD j 0
+      = 2 * c0 + 6 * d0 * (x0 + (winB p (effOk r (okOf cells)) cells.length j : Rat) * h) := by
+  rw [diffLine'_getD_lineSpec p r 2 h cells j hj]
+  unfold lineSpec winSpec
+  rw [if_pos hv, dAt_congr 2 _ _ _ _ _ hx (win_pos p r cells j hj hv)]
+  unfold dAt
+  simp only [show ¬ ((2 : Nat) = 1) by omega, if_false]
+  exact d2_exact a0 b0 c0 d0 x0 h hh _ hlen _ (win_pos p r cells j hj hv)
+
+/-- **Second derivative, window of exactly three cells: exact for polynomials of degree ≤ 2** -/
+theorem line_exact_d2_three (p r : Bool) (h : Rat) (hh : h ≠ 0) (cells : List (Rat × Bool)) (j : Nat) (hj : j < cells.length)
+    (hv : effOk r (okOf cells) j = true)
+    (hlen : winB p (effOk r (okOf cells)) cells.length j + winA p (effOk r (okOf cells)) cells.length j = 3)
+    (a0 b0 c0 x0 : Rat)
+    (hx : ∀ k, k < 3 → valOf cells (winIdx p (effOk r (okOf cells)) cells.length j k)
+        = a0 + b0 * (x0 + (k : Rat) * h) + c0 * (x0 + (k : Rat) * h) ^ 2) :
+    (diffLine' p r 2 h cells).getD j 0 = 2 * c0 := by
+  rw [diffLine'_getD_lineSpec p r 2 h cells j hj]
+  unfold lineSpec winSpec
+  have hp := win_pos p r cells j hj hv
+  rw [if_pos hv]
+  rw [hlen] at hp ⊢
+  rw [dAt_congr 2 _ _ _ _ _ hx hp]
+  unfold dAt
+  simp only [show ¬ ((2 : Nat) = 1) by omega, if_false]
+  exact d2_exact_three a0 b0 c0 x0 h hh _
+
+
+/-! ## `Field.diff` as a total function of its inputs: acceptance, refusal, what is kept -/
+
+/-- **`Field.diff` succeeds exactly on well-formed requests, and then keeps everything but the array**:
+the result is `g` iff the order is 1 or 2, the axis exists, and `g` is the operand with its array
+replaced by `diffData` — same mesh (region, cells, `bc`, subregions), component count, labels,
+`vdim_mapping`, unit and validity, for every axis, order and setting of `restrict2valid`. -/
+theorem diff_ok_iff (f g : Fld) (ax order : Nat) (r : Bool) :
+    diff f ax order r = .ok g ↔
+      (order = 1 ∨ order = 2) ∧ ax < f.mesh.ndim ∧ g = { f with data := diffData f ax order r } := by
+  rw [diff_eq]
+  by_cases ho : order ≠ 1 ∧ order ≠ 2
+  · rw [if_pos ho]
+    constructor
+    · intro h; cases h
+    · rintro ⟨h1, _, _⟩; omega
+  · rw [if_neg ho]
+    by_cases hax : f.mesh.ndim ≤ ax
+    · rw [if_pos hax]
+      constructor
+      · intro h; cases h
+      · rintro ⟨_, h2, _⟩; omega
+    · rw [if_neg hax]
+      constructor
+      · intro h
+        injection h with h
+        exact ⟨by omega, by omega, h.symm⟩
+      · rintro ⟨_, _, h3⟩; rw [h3]
+
+/-- acceptance from the inputs alone -/
+theorem diff_accepts_iff (f : Fld) (ax order : Nat) (r : Bool) :
+    (∃ g, diff f ax order r = .ok g) ↔ (order = 1 ∨ order = 2) ∧ ax < f.mesh.ndim := by
+  constructor
+  · rintro ⟨g, hg⟩
+    have := (diff_ok_iff f g ax order r).mp hg
+    exact ⟨this.1, this.2.1⟩
+  · rintro ⟨h1, h2⟩
+    exact ⟨_, (diff_ok_iff f _ ax order r).mpr ⟨h1, h2, rfl⟩⟩
+
+/-- **refusal ⇔ malformed, with the kind of refusal**: `NotImplementedError` exactly for an order other
+than 1 and 2 (whatever the axis), `ValueError` exactly for an admissible order and an axis the mesh
+does not have; nothing else is refused. -/
+theorem diff_rejects_iff (f : Fld) (ax order : Nat) (r : Bool) (e : Err) :
+    diff f ax order r = .error e ↔
+      (e = .notImpl ∧ order ≠ 1 ∧ order ≠ 2) ∨ (e = .value ∧ (order = 1 ∨ order = 2) ∧ f.mesh.ndim ≤ ax) := by
+  rw [diff_eq]
+  by_cases ho : order ≠ 1 ∧ order ≠ 2
+  · rw [if_pos ho]
+    constructor
+    · intro h; injection h with h; exact Or.inl ⟨h.symm, ho⟩
+    · rintro (⟨h1, _⟩ | ⟨_, h2, _⟩)
+      · rw [h1]
+      · omega
+  · rw [if_neg ho]
+    by_cases hax : f.mesh.ndim ≤ ax
+    · rw [if_pos hax]
+      constructor
+      · intro h; injection h with h; exact Or.inr ⟨h.symm, by omega, hax⟩
+      · rintro (⟨_, h2⟩ | ⟨h1, _, _⟩)
+        · exact absurd h2 ho
+        · rw [h1]
+    · rw [if_neg hax]
+      constructor
+      · intro h; cases h
+      · rintro (⟨_, h2⟩ | ⟨_, _, h3⟩)
+        · exact absurd h2 ho
+        · exact absurd h3 hax
+
+/-- `Field.diff` with the direction given by NAME: a known name is the call with its index -/
+theorem diffDir_eq_diff (f : Fld) (dir : String) (ax order : Nat) (r : Bool)
+    (h : indexOf? f.mesh.region.dims dir = some ax) : diffDir f dir order r = diff f ax order r := by
+  unfold diffDir Region.dim2index
+  rw [h]
+  by_cases ho : order ≠ 1 ∧ order ≠ 2
+  · rw [if_pos ho, diff_eq, if_pos ho]
+  · rw [if_neg ho]
+
+/-- **acceptance of `Field.diff(direction, order, …)` from the inputs**: it succeeds iff the order is 1
+or 2 and the name is one of the mesh's axis names (for a mesh whose region has one name per axis) -/
+theorem diffDir_accepts_iff (f : Fld) (dir : String) (order : Nat) (r : Bool)
+    (hd : f.mesh.region.dims.length = f.mesh.ndim) :
+    (∃ g, diffDir f dir order r = .ok g) ↔ (order = 1 ∨ order = 2) ∧ dir ∈ f.mesh.region.dims := by
+  unfold diffDir Region.dim2index
+  by_cases ho : order ≠ 1 ∧ order ≠ 2
+  · rw [if_pos ho]
+    constructor
+    · rintro ⟨g, hg⟩; cases hg
+    · rintro ⟨h1, _⟩; omega
+  · rw [if_neg ho]
+    cases hi : indexOf? f.mesh.region.dims dir with
+    | none =>
+      constructor
+      · rintro ⟨g, hg⟩; cases hg
+      · rintro ⟨_, h2⟩; exact absurd h2 ((indexOf?_none _ _).mp hi)
+    | some ax =>
+      have hs := indexOf?_some _ _ _ hi
+      constructor
+      · intro _
+        refine ⟨by omega, ?_⟩
+        rw [← hs.2]
+        rw [List.getD_eq_getElem?_getD, List.getElem?_eq_getElem hs.1]
+        exact List.getElem_mem _
+      · intro _
+        exact (diff_accepts_iff f ax order r).mpr ⟨by omega, by rw [← hd]; exact hs.1⟩
+
+/-- **refusal ⇔ malformed for the call by name**: `NotImplementedError` exactly for an order other than
+1 and 2 — checked BEFORE the name, so also for an unknown name — and `ValueError` exactly for an
+admissible order with an unknown name. -/
+theorem diffDir_rejects_iff (f : Fld) (dir : String) (order : Nat) (r : Bool) (e : Err)
+    (hd : f.mesh.region.dims.length = f.mesh.ndim) :
+    diffDir f dir order r = .error e ↔
+      (e = .notImpl ∧ order ≠ 1 ∧ order ≠ 2) ∨ (e = .value ∧ (order = 1 ∨ order = 2) ∧ dir ∉ f.mesh.region.dims) := by
+  by_cases ho : order ≠ 1 ∧ order ≠ 2
+  · unfold diffDir
+    rw [if_pos ho]
+    constructor
+    · intro h; injection h with h; exact Or.inl ⟨h.symm, ho⟩
+    · rintro (⟨h1, _⟩ | ⟨_, h2, _⟩)
+      · rw [h1]
+      · omega
+  · cases hi : indexOf? f.mesh.region.dims dir with
+    | none =>
+      have hnm := (indexOf?_none _ _).mp hi
+      unfold diffDir Region.dim2index
+      rw [if_neg ho, hi]
+      constructor
+      · intro h; injection h with h; exact Or.inr ⟨h.symm, by omega, hnm⟩
+      · rintro (⟨_, h2⟩ | ⟨h1, _, _⟩)
+        · exact absurd h2 ho
+        · rw [h1]
+    | some ax =>
+      have hs := indexOf?_some _ _ _ hi
+      have hmem : dir ∈ f.mesh.region.dims := by
+        rw [← hs.2, List.getD_eq_getElem?_getD, List.getElem?_eq_getElem hs.1]
+        exact List.getElem_mem _
+      rw [diffDir_eq_diff f dir ax order r hi, diff_rejects_iff]
+      constructor
+      · rintro (⟨_, h2⟩ | ⟨_, _, h3⟩)
+        · exact absurd h2 ho
+        · rw [← hd] at h3; omega
+      · rintro (⟨_, h2⟩ | ⟨_, _, h3⟩)
+        · exact absurd h2 ho
+        · exact absurd hmem h3
+
+
+/-! ## n-d field level, EVERY kind of axis and both settings of `restrict2valid` -/
+
+/-- **Field-level refinement for every axis, periodic or open, restricted to valid cells or not.**  For
+every axis `ax` of an n-d mesh, every component `c` and every cell `i`, `Field.diff` stores
+`lineSpec` of the grid line through `i`: 0 if the cell counts as invalid, otherwise the run stencil
+over the cell's window along that line (open axis: its maximal run of valid cells; periodic axis: that
+run inside the stored line plus at most one cell beyond the seam on each side; restriction off: every
+cell counts as valid) — it reads nothing else of the field. -/
+theorem diff_refines_lineSpec (f g : Fld) (ax order : Nat) (r : Bool) (h : diff f ax order r = .ok g)
+    (i : List Nat) (c : Nat) (hc : c < f.nvdim) (hi : i.getD ax 0 < f.mesh.nAt ax) :
+    (g.data.get i).getD c 0
+      = lineSpec (periodicAx f ax) r order (f.mesh.cellAt ax) (f.mesh.nAt ax) (fun j => (f.data.line ax i j).getD c 0)
+          (fun j => f.valid.line ax i j) (i.getD ax 0) := by
+  rw [diff_cell f g ax order r h i c hc]
+  change (diffLine' (periodicAx f ax) r order (f.mesh.cellAt ax) (lineCells f ax i c)).getD (i.getD ax 0) 0 = _
+  rw [diffLine'_getD_lineSpec _ _ _ _ _ _ (by rw [lineCells_length]; exact hi), lineCells_length]
+  unfold lineSpec
+  apply winSpec_congr _ _ _ _ _ _ _ _ _ hi (fun k hk => valOf_lineCells f ax i c k hk)
+  intro k hk
+  unfold effOk
+  rw [okOf_lineCells f ax i c k hk]
+
+/-- the same in terms of the cell's window: `fldB` cells before it, `fldA` from it on, `fldWin k` the
+value at the window's `k`-th cell -/
+theorem diff_refines_window (f g : Fld) (ax order : Nat) (r : Bool) (h : diff f ax order r = .ok g)
+    (i : List Nat) (c : Nat) (hc : c < f.nvdim) (hi : i.getD ax 0 < f.mesh.nAt ax) :
+    (g.data.get i).getD c 0
+      = if fldOk f r i then dAt order (f.mesh.cellAt ax) (fldB f ax r i + fldA f ax r i) (fldWin f ax r i c) (fldB f ax r i)
+        else 0 := by
+  rw [diff_refines_lineSpec f g ax order r h i c hc hi]
+  unfold lineSpec winSpec fldOk fldB fldA fldWin effOk NDA.line
+  beta_reduce
+  rw [setAt_getD_self]
+
+/-- **Invalid cells yield zero** — every axis of either kind, both orders (restriction on). -/
+theorem diff_invalid_zero_any (f g : Fld) (ax order : Nat) (r : Bool) (h : diff f ax order r = .ok g)
+    (i : List Nat) (c : Nat) (hc : c < f.nvdim) (hi : i.getD ax 0 < f.mesh.nAt ax) (hv : fldOk f r i = false) :
+    (g.data.get i).getD c 0 = 0 := by
+  rw [diff_refines_window f g ax order r h i c hc hi, hv]; rfl
+
+/-- **Runs not longer than the order yield zero — open AND periodic axes, restriction on or off**: a
+cell whose window along `ax` has at most `order` cells gets 0 (on a periodic axis the window is the
+run in the stored line plus at most one cell beyond the seam on each side). -/
+theorem diff_short_run_zero_any (f g : Fld) (ax order : Nat) (r : Bool) (h : diff f ax order r = .ok g)
+    (i : List Nat) (c : Nat) (hc : c < f.nvdim) (hi : i.getD ax 0 < f.mesh.nAt ax)
+    (hs : fldB f ax r i + fldA f ax r i ≤ order) : (g.data.get i).getD c 0 = 0 := by
+  have ho : order = 1 ∨ order = 2 := ((diff_ok_iff f g ax order r).mp h).1
+  rw [diff_refines_window f g ax order r h i c hc hi]
+  split
+  · exact dAt_short order ho _ _ hs _ _
+  · rfl
+
+/-- **n-d locality for every kind of axis and both settings of the restriction.**  Two fields on the
+same mesh with the same validity along the grid line through `i` whose component `c` agrees on the
+cells of `i`'s window along that line have the same derivative at `(i, c)` — whatever they hold
+anywhere else: outside the window on the same line, on every other grid line, in every other component. -/
+theorem diff_locality_any (f1 f2 g1 g2 : Fld) (ax order : Nat) (r : Bool)
+    (h1 : diff f1 ax order r = .ok g1) (h2 : diff f2 ax order r = .ok g2) (hmesh : f1.mesh = f2.mesh)
+    (i : List Nat) (c : Nat) (hc1 : c < f1.nvdim) (hc2 : c < f2.nvdim) (hi : i.getD ax 0 < f1.mesh.nAt ax)
+    (hv : ∀ j, j < f1.mesh.nAt ax → f1.valid.line ax i j = f2.valid.line ax i j)
+    (hx : ∀ k, k < fldB f1 ax r i + fldA f1 ax r i → fldWin f1 ax r i c k = fldWin f2 ax r i c k) :
+    (g1.data.get i).getD c 0 = (g2.data.get i).getD c 0 := by
+  have hp : periodicAx f2 ax = periodicAx f1 ax := by unfold periodicAx; rw [hmesh]
+  have he : ∀ j, j < f1.mesh.nAt ax → effOk r (fun j => f1.valid.line ax i j) j = effOk r (fun j => f2.valid.line ax i j) j := by
+    intro j hj; unfold effOk; beta_reduce; rw [hv j hj]
+  have eB : fldB f2 ax r i = fldB f1 ax r i := by
+    unfold fldB; rw [hp, ← hmesh]; exact (winB_congr _ _ _ _ _ hi he).symm
+  have eA : fldA f2 ax r i = fldA f1 ax r i := by
+    unfold fldA; rw [hp, ← hmesh]; exact (winA_congr _ _ _ _ _ hi he).symm
+  have eO : fldOk f2 r i = fldOk f1 r i := by
+    have := he _ hi
+    unfold effOk NDA.line at this
+    beta_reduce at this
+    rw [setAt_getD_self] at this
+    exact this.symm
+  rw [diff_refines_window f1 g1 ax order r h1 i c hc1 hi,
+    diff_refines_window f2 g2 ax order r h2 i c hc2 (by rw [← hmesh]; exact hi), eB, eA, eO, ← hmesh]
+  split
+  · rename_i hok
+    exact dAt_congr _ _ _ _ _ _ hx (fldOk_pos f1 ax r i hi hok)
+  · rfl
+
+/-- **Exactness at field level for every kind of axis, first derivative, windows of ≥ 3 cells**: if
+component `c` samples a polynomial of degree ≤ 2 of the position along the cell's window, the stored
+derivative is the exact one — at the first cell of the window, in its interior and at its last cell. -/
+theorem diff_exact_d1_any (f g : Fld) (ax : Nat) (r : Bool) (h : diff f ax 1 r = .ok g)
+    (i : List Nat) (c : Nat) (hc : c < f.nvdim) (hi : i.getD ax 0 < f.mesh.nAt ax) (hv : fldOk f r i = true)
+    (hh : f.mesh.cellAt ax ≠ 0) (hlen : 3 ≤ fldB f ax r i + fldA f ax r i) (a0 b0 c0 x0 : Rat)
+    (hx : ∀ k, k < fldB f ax r i + fldA f ax r i →
+        fldWin f ax r i c k = a0 + b0 * (x0 + (k : Rat) * f.mesh.cellAt ax) + c0 * (x0 + (k : Rat) * f.mesh.cellAt ax) ^ 2) :
+    (g.data.get i).getD c 0 = b0 + 2 * c0 * (x0 + (fldB f ax r i : Rat) * f.mesh.cellAt ax) := by
+  rw [diff_refines_window f g ax 1 r h i c hc hi, hv]
+  simp only [if_true]
+  have hp := fldOk_pos f ax r i hi hv
+  rw [dAt_congr 1 _ _ _ _ _ hx hp]
+  unfold dAt
+  simp only [if_true]
+  exact d1_exact a0 b0 c0 x0 _ hh _ hlen _ hp
+
+/-- … first derivative, windows of exactly two cells: exact for polynomials of degree ≤ 1 -/
+theorem diff_exact_d1_two_any (f g : Fld) (ax : Nat) (r : Bool) (h : diff f ax 1 r = .ok g)
+    (i : List Nat) (c : Nat) (hc : c < f.nvdim) (hi : i.getD ax 0 < f.mesh.nAt ax) (hv : fldOk f r i = true)
+    (hh : f.mesh.cellAt ax ≠ 0) (hlen : fldB f ax r i + fldA f ax r i = 2) (a0 b0 x0 : Rat)
+    (hx : ∀ k, k < 2 → fldWin f ax r i c k = a0 + b0 * (x0 + (k : Rat) * f.mesh.cellAt ax)) :
+    (g.data.get i).getD c 0 = b0 := by
+  rw [diff_refines_window f g ax 1 r h i c hc hi, hv]
+  simp only [if_true]
+  have hp := fldOk_pos f ax r i hi hv
+  rw [hlen] at hp ⊢
+  rw [dAt_congr 1 _ _ _ _ _ hx hp]
+  unfold dAt
+  simp only [if_true]
+  exact d1_exact_two a0 b0 x0 _ hh _
+
+/-- … second derivative, windows of ≥ 4 cells: exact for polynomials of degree ≤ 3 -/
+theorem diff_exact_d2_any (f g : Fld) (ax : Nat) (r : Bool) (h : diff f ax 2 r = .ok g)
+    (i : List Nat) (c : Nat) (hc : c < f.nvdim) (hi : i.getD ax 0 < f.mesh.nAt ax) (hv : fldOk f r i = true)
+    (hh : f.mesh.cellAt ax ≠ 0) (hlen : 4 ≤ fldB f ax r i + fldA f ax r i) (a0 b0 c0 d0 x0 : Rat)
+    (hx : ∀ k, k < fldB f ax r i + fldA f ax r i →
+        fldWin f ax r i c k = a0 + b0 * (x0 + (k : Rat) * f.mesh.cellAt ax) + c0 * (x0 + (k : Rat) * f.mesh.cellAt ax) ^ 2
+          + d0 * (x0 + (k : Rat) * f.mesh.cellAt ax) ^ 3) :
+    (g.data.get i).getD c 0 = 2 * c0 + 6 * d0 * (x0 + (fldB f ax r i : Rat) * f.mesh.cellAt ax) := by
+  rw [diff_refines_window f g ax 2 r h i c hc hi, hv]
+  simp only [if_true]
+  have hp := fldOk_pos f ax r i hi hv
+  rw [dAt_congr 2 _ _ _ _ _ hx hp]
+  unfold dAt
+  simp only [show ¬ ((2 : Nat) = 1) by omega, if_false]
+  exact d2_exact a0 b0 c0 d0 x0 _ hh _ hlen _ hp
+
+/-- … second derivative, windows of exactly three cells: exact for polynomials of degree ≤ 2 -/
+theorem diff_exact_d2_three_any (f g : Fld) (ax : Nat) (r : Bool) (h : diff f ax 2 r = .ok g)
+    (i : List Nat) (c : Nat) (hc : c < f.nvdim) (hi : i.getD ax 0 < f.mesh.nAt ax) (hv : fldOk f r i = true)
+    (hh : f.mesh.cellAt ax ≠ 0) (hlen : fldB f ax r i + fldA f ax r i = 3) (a0 b0 c0 x0 : Rat)
+    (hx : ∀ k, k < 3 →
+        fldWin f ax r i c k = a0 + b0 * (x0 + (k : Rat) * f.mesh.cellAt ax) + c0 * (x0 + (k : Rat) * f.mesh.cellAt ax) ^ 2) :
+    (g.data.get i).getD c 0 = 2 * c0 := by
+  rw [diff_refines_window f g ax 2 r h i c hc hi, hv]
+  simp only [if_true]
+  have hp := fldOk_pos f ax r i hi hv
+  rw [hlen] at hp ⊢
+  rw [dAt_congr 2 _ _ _ _ _ hx hp]
+  unfold dAt
+  simp only [show ¬ ((2 : Nat) = 1) by omega, if_false]
+  exact d2_exact_three a0 b0 c0 x0 _ hh _
+
+
+/-! ## `restrict2valid = False`: the whole line is one run, at n-d level, both kinds of axis -/
+
+/-- **With the validity restriction switched off `Field.diff` is `Field.diff` of the same field with every
+cell valid, with the operand's validity put back** — as fields, for every axis (open or periodic),
+every order, including the refusals. -/
+theorem diff_restrict_off_nd (f : Fld) (ax order : Nat) :
+    diff f ax order false = (diff (allValid f) ax order true).map fun g => { g with valid := f.valid } := by
+  have hd : diffData f ax order false = diffData (allValid f) ax order true := by
+    unfold diffData allValid
+    simp only
+    congr 1
+    funext i
+    apply tab_congr
+    intro c _
+    rw [restrict_off, tab_map]
+    rfl
+  rw [diff_eq, diff_eq]
+  by_cases ho : order ≠ 1 ∧ order ≠ 2
+  · rw [if_pos ho, if_pos ho]; rfl
+  · rw [if_neg ho, if_neg ho]
+    by_cases hax : f.mesh.ndim ≤ ax
+    · rw [if_pos hax, if_pos (show (allValid f).mesh.ndim ≤ ax from hax)]; rfl
+    · rw [if_neg hax, if_neg (show ¬ (allValid f).mesh.ndim ≤ ax from hax), hd]; rfl
+
+/-- **Open axis, restriction off: the whole grid line is ONE run** — the stored value is the run stencil
+over all `n` cells of the line at the cell's position, whatever the validity pattern. -/
+theorem diff_restrict_off_open_run (f g : Fld) (ax order : Nat) (h : diff f ax order false = .ok g)
+    (hopen : periodicAx f ax = false) (i : List Nat) (c : Nat) (hc : c < f.nvdim) (hi : i.getD ax 0 < f.mesh.nAt ax) :
+    (g.data.get i).getD c 0
+      = dAt order (f.mesh.cellAt ax) (f.mesh.nAt ax) (fun j => (f.data.line ax i j).getD c 0) (i.getD ax 0) := by
+  rw [diff_cell f g ax order false h i c hc]
+  unfold periodicAx at hopen
+  rw [hopen, restrict_off_open, diffRun_getD _ _ _ _ (by rw [List.length_map, lineCells_length]; exact hi),
+    List.length_map, lineCells_length]
+  apply dAt_congr _ _ _ _ _ _ _ hi
+  intro k hk
+  unfold lineCells
+  rw [tab_map, getD_tab _ _ _ _ hk]
+
+/-- **Periodic axis, restriction off or fully valid line: centred differences with wrap-around**, both
+orders, every line length ≥ 1 (`centred`: `(x[j+1] − x[j−1]) / 2h` resp. `(x[j+1] − 2x[j] + x[j−1]) / h²`,
+positions modulo `n`). -/
+theorem diff_periodic_centred_any (f g : Fld) (ax order : Nat) (r : Bool) (h : diff f ax order r = .ok g)
+    (hper : periodicAx f ax = true) (i : List Nat) (c : Nat) (hc : c < f.nvdim) (hi : i.getD ax 0 < f.mesh.nAt ax)
+    (hv : r = false ∨ ∀ j, j < f.mesh.nAt ax → f.valid.line ax i j = true) :
+    (g.data.get i).getD c 0
+      = centred order (f.mesh.cellAt ax) (f.mesh.nAt ax) (fun j => (f.data.line ax i j).getD c 0) (i.getD ax 0) := by
+  rw [diff_refines_lineSpec f g ax order r h i c hc hi, hper]
+  unfold lineSpec
+  rw [← ringSpec_eq_winSpec]
+  apply ringSpec_allValid _ _ _ _ _ _ hi
+  intro k hk
+  unfold effOk
+  beta_reduce
+  rcases hv with hv | hv
+  · rw [hv]; rfl
+  · rw [hv k hk]; simp
+
+/-! ## Linearity, components, boundary-condition words: statements about whole fields -/
+
+/-- **`Field.diff` is linear, as an identity between fields**: for `f1`, `f2` on the same mesh with the
+same validity and component count, `diff (α·f1 + β·f2) = α·diff f1 + β·diff f2` — same mesh, labels,
+unit and validity on both sides, every cell and component of the array — for every axis (open or
+periodic), both orders, restricted to valid cells or not, every mask; both sides are refused together. -/
+theorem diff_linFld (f1 f2 : Fld) (ax order : Nat) (r : Bool) (α β : Rat)
+    (hm : f2.mesh = f1.mesh) (hn : f2.nvdim = f1.nvdim) (hv : f2.valid.get = f1.valid.get) :
+    diff (linFld α β f1 f2) ax order r
+      = (diff f1 ax order r).bind fun g1 => (diff f2 ax order r).bind fun g2 => .ok (linFld α β g1 g2) := by
+  have hd : diffData (linFld α β f1 f2) ax order r
+      = (linFld α β { f1 with data := diffData f1 ax order r } { f2 with data := diffData f2 ax order r }).data := by
+    unfold diffData linFld
+    simp only
+    congr 1
+    funext i
+    apply tab_congr
+    intro c hc
+    rw [hn, hm, getD_tab _ _ _ _ hc, getD_tab _ _ _ _ hc]
+    let cells : List ((Rat × Rat) × Bool) := tab (f1.mesh.nAt ax) fun j =>
+      (((f1.data.line ax i j).getD c 0, (f2.data.line ax i j).getD c 0), f1.valid.line ax i j)
+    have e1 : (tab (f1.mesh.nAt ax) fun j => ((f1.data.line ax i j).getD c 0, f1.valid.line ax i j))
+        = cells.map fun c => (c.1.1, c.2) := by
+      simp only [cells, tab_map]
+    have e2 : (tab (f1.mesh.nAt ax) fun j => ((f2.data.line ax i j).getD c 0, f2.valid.line ax i j))
+        = cells.map fun c => (c.1.2, c.2) := by
+      simp only [cells, tab_map, NDA.line, hv]
+    have e3 : (tab (f1.mesh.nAt ax) fun j =>
+          (((⟨f1.data.shape, fun i => tab f1.nvdim fun c => α * (f1.data.get i).getD c 0 + β * (f2.data.get i).getD c 0⟩ :
+              NDA (List Rat)).line ax i j).getD c 0, f1.valid.line ax i j))
+        = cells.map fun c => (α * c.1.1 + β * c.1.2, c.2) := by
+      simp only [cells, tab_map, NDA.line]
+      apply tab_congr
+      intro j _
+      rw [getD_tab _ _ _ _ hc]
+    rw [e1, e2, e3]
+    exact line_linear _ r order _ α β cells _
+  rw [diff_eq, diff_eq, diff_eq]
+  by_cases ho : order ≠ 1 ∧ order ≠ 2
+  · rw [if_pos ho, if_pos ho]; rfl
+  · rw [if_neg ho, if_neg ho, if_neg ho]
+    by_cases hax : f1.mesh.ndim ≤ ax
+    · rw [if_pos (show (linFld α β f1 f2).mesh.ndim ≤ ax from hax), if_pos hax]; rfl
+    · rw [if_neg (show ¬ (linFld α β f1 f2).mesh.ndim ≤ ax from hax), if_neg hax, if_neg (by rw [hm]; exact hax), hd]
+      rfl
+
+/-- **Components are differentiated independently, as an identity between fields**: the derivative of
+component `c` taken alone (a scalar field on the same mesh with the same validity) is component `c` of
+the derivative of the whole field — every axis of either kind, both orders, restriction on or off. -/
+theorem diff_compFld (f : Fld) (ax order : Nat) (r : Bool) (c : Nat) (hc : c < f.nvdim) :
+    diff (compFld f c) ax order r = (diff f ax order r).map fun g => compFld g c := by
+  have hd : diffData (compFld f c) ax order r
+      = (compFld { f with data := diffData f ax order r } c).data := by
+    unfold diffData compFld
+    simp only
+    congr 1
+    funext i
+    rw [tab_one, getD_tab _ _ _ _ hc]
+    simp only [NDA.line, List.getD_cons_zero]
+  rw [diff_eq, diff_eq]
+  by_cases ho : order ≠ 1 ∧ order ≠ 2
+  · rw [if_pos ho, if_pos ho]; rfl
+  · rw [if_neg ho, if_neg ho]
+    by_cases hax : f.mesh.ndim ≤ ax
+    · rw [if_pos (show (compFld f c).mesh.ndim ≤ ax from hax), if_pos hax]; rfl
+    · rw [if_neg (show ¬ (compFld f c).mesh.ndim ≤ ax from hax), if_neg hax, hd]; rfl
+
+/-- **The boundary-condition words change nothing in `Field.diff`**: on a mesh with `bc = "neumann"` or
+`bc = "dirichlet"` the derivative along EVERY axis — whatever the axis is called — is the derivative
+on the same mesh with `bc = ""` (every axis open, no padding of any kind), with the word put back. -/
+theorem diff_word_bc (f : Fld) (ax order : Nat) (r : Bool) (hw : f.mesh.bc = "neumann" ∨ f.mesh.bc = "dirichlet") :
+    diff f ax order r = (diff (withBc f "") ax order r).map fun g => withBc g f.mesh.bc := by
+  have hd : diffData f ax order r = diffData (withBc f "") ax order r := by
+    unfold diffData withBc
+    simp only
+    rw [periodicBc_word _ _ hw, periodicBc_empty]
+    rfl
+  rw [diff_eq, diff_eq]
+  by_cases ho : order ≠ 1 ∧ order ≠ 2
+  · rw [if_pos ho, if_pos ho]; rfl
+  · rw [if_neg ho, if_neg ho]
+    by_cases hax : f.mesh.ndim ≤ ax
+    · rw [if_pos hax, if_pos (show (withBc f "").mesh.ndim ≤ ax from hax)]; rfl
+    · rw [if_neg hax, if_neg (show ¬ (withBc f "").mesh.ndim ≤ ax from hax), hd]; rfl
+
+/-- … and, more generally, the derivative along an axis does not depend on `bc` at all as long as the
+axis is open under both boundary conditions (e.g. `bc` lists other axes only) -/
+theorem diff_bc_irrelevant (f : Fld) (ax order : Nat) (r : Bool) (bc : String)
+    (h1 : periodicAx f ax = false) (h2 : periodicAx (withBc f bc) ax = false) :
+    diff (withBc f bc) ax order r = (diff f ax order r).map fun g => withBc g bc := by
+  have hd : diffData (withBc f bc) ax order r = diffData f ax order r := by
+    unfold periodicAx at h1 h2
+    unfold diffData
+    rw [h2, h1]
+    rfl
+  rw [diff_eq, diff_eq]
+  by_cases ho : order ≠ 1 ∧ order ≠ 2
+  · rw [if_pos ho, if_pos ho]; rfl
+  · rw [if_neg ho, if_neg ho]
+    by_cases hax : f.mesh.ndim ≤ ax
+    · rw [if_pos hax, if_pos (show (withBc f bc).mesh.ndim ≤ ax from hax)]; rfl
+    · rw [if_neg hax, if_neg (show ¬ (withBc f bc).mesh.ndim ≤ ax from hax), hd]; rfl
+
+/-! ## storage kind of the result (repo fix 5136d062) -/
+
+/-- **The result is never stored as integers**: `np.result_type(dtype, float)` is binary64 for every
+integer and real floating kind and complex128 for the complex kinds; the rule is idempotent and keeps
+real / complex apart.  (The rule is a model definition tied to the code by the `dtype` stream.) -/
+theorem resKind_rule (k : Kind) :
+    (k.isComplex = false → resKind k = .f64) ∧ (k.isComplex = true → resKind k = .c128) ∧
+    (resKind k).isInt = false ∧ (resKind k).isComplex = k.isComplex ∧ resKind (resKind k) = resKind k := by
+  cases k <;> simp [resKind, Kind.isComplex, Kind.isInt]
+
+
+/-! ## Non-vacuity of the second round: periodic axes, masks with holes, several cells -/
+
+/-- `diffRing_refines_ringSpec` on the ring of finding D17 (`[7,1,4,9,2]`, mask `[1,1,1,0,1]`): the window of
+cell 4 is the cell itself and ONE cell beyond the seam (so it gets the two-cell stencil, 10), the window of
+cell 0 is one cell before the seam and three cells from it on -/
+example : ringBefore (okOf exRing) 5 4 = 0 ∧ ringFrom (okOf exRing) 5 4 = 2 ∧
+    ringBefore (okOf exRing) 5 0 = 1 ∧ ringFrom (okOf exRing) 5 0 = 3 ∧
+    ringSpec 1 (1/2) 5 (valOf exRing) (okOf exRing) 4 = 10 := by
+  refine ⟨by decide, by decide, by decide, by decide, ?_⟩
+  have := diffRing_refines_ringSpec 1 (1/2) exRing 4 (by decide)
+  rw [show exRing.length = 5 from rfl] at this
+  rw [← this]
+  exact ring_shift_masked_counterexample.1
+
+/-- `ring_cell_off_seam`: in the ring `[1,0,1,1,1,0]` cell 3 sits in a run that touches neither end -/
+example : runBefore (okOf [((1 : Rat), true), (2, false), (3, true), (5, true), (8, true), (13, false)]) 3 < 3 ∧
+    3 + runFrom (okOf [((1 : Rat), true), (2, false), (3, true), (5, true), (8, true), (13, false)]) 6 3 < 6 := by decide
+
+/-- `ring_shift_iff`, the good side: the mask `[1,1,0,1,0]` has no three cyclically consecutive valid cells
+(its ring runs are `3,4→` … `[3]` and `[0,1]`), the mask `[1,1,1,1]` is fully valid -/
+example : noThree (fun k => [true, true, false, true, false].getD k false) 5 ∧
+    (∀ k, k < 4 → [true, true, true, true].getD k false = true) := by
+  refine ⟨?_, by decide⟩
+  unfold noThree; decide
+
+/-- `ring_shift_iff`, the bad side: the mask of finding D17 satisfies neither condition, so for it the
+derivative does NOT commute with all rotations (for some data) -/
+example : ¬ ∀ (cells : List (Rat × Bool)), cells.map (·.2) = [true, true, true, false, true] → ∀ s j, j < 5 →
+    (diffRing 1 (1/2) (rotCells cells s)).getD j 0 = (diffRing 1 (1/2) cells).getD ((j + s) % 5) 0 := by
+  intro H
+  have := (ring_shift_iff 1 (Or.inl rfl) (1/2) (by norm_num) [true, true, true, false, true]).mp H
+  revert this
+  unfold noThree
+  decide
+
+/-- `line_exact_d2_three` on a PERIODIC line with a hole: ring `[1,4,·,·,9,0]` with mask `[1,1,0,0,1,1]`,
+restriction on; cell 0 has the window 5,0,1 (one cell beyond the seam, two from the cell on) holding `0,1,4`,
+a quadratic: the second derivative there is exactly 2 -/
+example : (diffLine' true true 2 1 [((1 : Rat), true), (4, true), (77, false), (78, false), (9, true), (0, true)]).getD 0 0 = 2 := by
+  have := line_exact_d2_three true true 1 (by norm_num) [((1 : Rat), true), (4, true), (77, false), (78, false), (9, true), (0, true)]
+    0 (by decide) (by decide) (by decide) 0 0 1 0 (by
+      intro k hk
+      have : k = 0 ∨ k = 1 ∨ k = 2 := by omega
+      rcases this with rfl | rfl | rfl <;> (simp [winIdx, winB, ringBefore, runBefore, effOk, okOf, valOf]; try norm_num))
+  simpa using this
+
+/-- the periodic 2-d field `exP` (6×2 cells, `bc = "x"`, cell (3,0) invalid, two components): every request with
+order 1 or 2 along an existing axis is accepted; axis 0 is periodic, axis 1 open; the window of cell (1,0)
+along `x` is `5,0,1,2` (two cells before it — one of them beyond the seam — and two from it on), although its
+ring run is `4,5,0,1,2`; cell (3,0) does not count as valid unless the restriction is off, and then its window
+is the whole ring padded by one cell on each side -/
+example : (∃ g, diff exP 0 1 true = .ok g) ∧ (∃ g, diff exP 1 2 false = .ok g) ∧
+    periodicAx exP 0 = true ∧ periodicAx exP 1 = false ∧
+    fldB exP 0 true [1, 0] = 2 ∧ fldA exP 0 true [1, 0] = 2 ∧ fldOk exP true [1, 0] = true ∧
+    fldOk exP true [3, 0] = false ∧ fldOk exP false [3, 0] = true ∧
+    fldB exP 0 false [3, 0] = 4 ∧ fldA exP 0 false [3, 0] = 4 :=
+  ⟨(diff_accepts_iff exP 0 1 true).mpr ⟨Or.inl rfl, by decide⟩, (diff_accepts_iff exP 1 2 false).mpr ⟨Or.inr rfl, by decide⟩,
+   by decide, by decide, by decide, by decide, by decide, by decide, by decide, by decide, by decide⟩
+
+/-- the hypotheses of `diff_exact_d1_any` are met on the PERIODIC axis of `exP` at cell (1,0), whose window
+crosses the seam: component 0 holds `0,1,4,9` along the window `5,0,1,2`, the stored derivative is `2·2 = 4` -/
+example : ∃ g, diff exP 0 1 true = .ok g ∧ (g.data.get [1, 0]).getD 0 0 = 4 := by
+  obtain ⟨g, hg⟩ := (diff_accepts_iff exP 0 1 true).mpr ⟨Or.inl rfl, by decide⟩
+  refine ⟨g, hg, ?_⟩
+  have hc : exP.mesh.cellAt 0 = 1 := by
+    simp [Mesh.cellAt, Mesh.nAt, exP, Region.edge, Region.hi, Region.lo]
+  have hB : fldB exP 0 true [1, 0] = 2 := by decide
+  have hA : fldA exP 0 true [1, 0] = 2 := by decide
+  have := diff_exact_d1_any exP g 0 true hg [1, 0] 0 (by decide) (by decide) (by decide) (by rw [hc]; norm_num)
+    (by rw [hB, hA]; decide) 0 0 1 0 (by
+      intro k hk
+      rw [hB, hA] at hk
+      rw [hc]
+      have : k = 0 ∨ k = 1 ∨ k = 2 ∨ k = 3 := by omega
+      have hI : ∀ k, winIdx (periodicAx exP 0) (effOk true fun j => exP.valid.line 0 [1, 0] j) (exP.mesh.nAt 0) ([1, 0].getD 0 0) k
+          = (1 + 6 - 2 + k) % 6 := by
+        intro k
+        unfold winIdx
+        rw [show winB (periodicAx exP 0) (effOk true fun j => exP.valid.line 0 [1, 0] j) (exP.mesh.nAt 0) ([1, 0].getD 0 0) = 2 from hB]
+        rfl
+      unfold fldWin
+      rw [hI]
+      rcases this with rfl | rfl | rfl | rfl <;> simp [exP, NDA.line, setAt])
+  rw [this, hc, hB]; norm_num
+
+/-- `diffDir`: on `exF` (axes `x`, `y`) the name `y` is axis 1; an unknown name with an admissible order is a
+`ValueError`; an inadmissible order is a `NotImplementedError` whatever the name -/
+example : diffDir exF "y" 2 true = diff exF 1 2 true ∧ diffDir exF "q" 1 true = .error .value ∧
+    diffDir exF "q" 3 true = .error .notImpl ∧ diffDir exF "x" 0 false = .error .notImpl :=
+  ⟨diffDir_eq_diff exF "y" 1 2 true (by decide),
+   (diffDir_rejects_iff exF "q" 1 true .value (by decide)).mpr (Or.inr ⟨rfl, Or.inl rfl, by decide⟩),
+   (diffDir_rejects_iff exF "q" 3 true .notImpl (by decide)).mpr (Or.inl ⟨rfl, by decide⟩),
+   (diffDir_rejects_iff exF "x" 0 false .notImpl (by decide)).mpr (Or.inl ⟨rfl, by decide⟩)⟩
+
+/-- the hypotheses of `diff_linFld` (same mesh, component count, validity) are met by `exF`, `exG`; those of
+`diff_compFld` by component 1 of `exP`; those of `diff_word_bc` by `exFN`; those of `diff_bc_irrelevant` by
+axis `y` of `exP` with `bc = "x"` replaced by `""` -/
+example : exG.mesh = exF.mesh ∧ exG.nvdim = exF.nvdim ∧ exG.valid.get = exF.valid.get ∧ 1 < exP.nvdim ∧
+    (exFN.mesh.bc = "neumann" ∨ exFN.mesh.bc = "dirichlet") ∧
+    periodicAx exP 1 = false ∧ periodicAx (withBc exP "") 1 = false :=
+  ⟨rfl, rfl, rfl, by decide, Or.inl rfl, by decide, by decide⟩
+/-! ## Periodic lines: centred differences wherever both neighbours are valid; the integer order -/
+
+/-- **On a periodic line every cell whose two ring neighbours are valid gets the centred wrap-around
+difference — for EVERY mask**, also next to the seam and inside runs that cross it: the one-cell wrap
+padding always supplies the neighbour.  (The deviation of finding D17 is confined to the END cells of a
+run that is cut at the seam.) -/
+theorem ring_centred_at (o : Nat) (h : Rat) (cells : List (Rat × Bool)) (j : Nat) (hj : j < cells.length)
+    (hv : okOf cells j = true) (hs : okOf cells ((j + 1) % cells.length) = true)
+    (hp : okOf cells ((j + cells.length - 1) % cells.length) = true) :
+    (diffRing o h cells).getD j 0 = centred o h cells.length (valOf cells) j := by
+  rw [diffRing_getD_ringSpec o h cells j hj]
+  generalize cells.length = L at *
+  generalize okOf cells = v at *
+  generalize valOf cells = x at *
+  have hB : 1 ≤ ringBefore v L j := by
+    unfold ringBefore
+    cases j with
+    | zero =>
+      rw [Nat.zero_add, Nat.mod_eq_of_lt (by omega)] at hp
+      simp [runBefore, hp]
+    | succ j' =>
+      rw [show j' + 1 + L - 1 = j' + L by omega, Nat.add_mod_right, Nat.mod_eq_of_lt (by omega)] at hp
+      simp only [runBefore, hp, if_true]
+      split
+      · omega
+      · omega
+  have hA : 2 ≤ ringFrom v L j := by
+    unfold ringFrom runFrom
+    by_cases hlt : j + 1 < L
+    · rw [Nat.mod_eq_of_lt hlt] at hs
+      obtain ⟨f, hf⟩ : ∃ f, L - j = f + 1 + 1 := ⟨L - j - 2, by omega⟩
+      rw [hf]
+      simp only [runFromAux, hv, hs, if_true]
+      split <;> omega
+    · have he : j + 1 = L := by omega
+      rw [he, Nat.mod_self] at hs
+      rw [show L - j = 1 by omega]
+      simp only [runFromAux, hv, if_true, hs]
+      rw [if_pos (by omega)]
+  have hBle := ringBefore_le v L j
+  unfold ringSpec
+  rw [if_pos hv, dAt_interior o h _ _ _ (by omega) hB (by omega)]
+  unfold centred
+  have a1 : (j + L - ringBefore v L j + (ringBefore v L j + 1)) % L = (j + 1) % L := by
+    rw [show j + L - ringBefore v L j + (ringBefore v L j + 1) = (j + 1) + L by omega, Nat.add_mod_right]
+  have a2 : (j + L - ringBefore v L j + ringBefore v L j) % L = j % L := by
+    rw [show j + L - ringBefore v L j + ringBefore v L j = j + L by omega, Nat.add_mod_right]
+  have a3 : (j + L - ringBefore v L j + (ringBefore v L j - 1)) % L = (j + L - 1) % L := by
+    congr 1; omega
+  simp only [a1, a2, a3]
+
+/-- … and at n-d field level: along a periodic axis, whatever the mask and the setting of the restriction,
+a cell that counts as valid together with its two ring neighbours along the axis gets the centred
+wrap-around difference of its grid line (both orders, every line length ≥ 1). -/
+theorem diff_periodic_centred_at (f g : Fld) (ax order : Nat) (r : Bool) (h : diff f ax order r = .ok g)
+    (hper : periodicAx f ax = true) (i : List Nat) (c : Nat) (hc : c < f.nvdim) (hi : i.getD ax 0 < f.mesh.nAt ax)
+    (hv : r = false ∨ (f.valid.line ax i (i.getD ax 0) = true ∧ f.valid.line ax i ((i.getD ax 0 + 1) % f.mesh.nAt ax) = true
+      ∧ f.valid.line ax i ((i.getD ax 0 + f.mesh.nAt ax - 1) % f.mesh.nAt ax) = true)) :
+    (g.data.get i).getD c 0
+      = centred order (f.mesh.cellAt ax) (f.mesh.nAt ax) (fun j => (f.data.line ax i j).getD c 0) (i.getD ax 0) := by
+  rw [diff_cell f g ax order r h i c hc]
+  unfold periodicAx at hper
+  rw [hper]
+  have hn : 0 < f.mesh.nAt ax := by omega
+  have hcentred : ∀ cells' : List (Rat × Bool), cells'.length = f.mesh.nAt ax →
+      (∀ k, k < f.mesh.nAt ax → valOf cells' k = (f.data.line ax i k).getD c 0) →
+      centred order (f.mesh.cellAt ax) cells'.length (valOf cells') (i.getD ax 0)
+        = centred order (f.mesh.cellAt ax) (f.mesh.nAt ax) (fun j => (f.data.line ax i j).getD c 0) (i.getD ax 0) := by
+    intro cells' hl hval
+    unfold centred
+    rw [hl, hval _ (Nat.mod_lt _ hn), hval _ (Nat.mod_lt _ hn), hval _ (Nat.mod_lt _ hn)]
+  unfold diffLine'
+  simp only [if_true]
+  change (diffRing order (f.mesh.cellAt ax) (if r = true then lineCells f ax i c else (lineCells f ax i c).map fun c => (c.1, true))).getD
+      (i.getD ax 0) 0 = _
+  have hl := lineCells_length f ax i c
+  cases r with
+  | false =>
+    simp only [Bool.false_eq_true, if_false]
+    have hl' : ((lineCells f ax i c).map fun c => (c.1, true)).length = f.mesh.nAt ax := by rw [List.length_map, hl]
+    rw [ring_centred_at _ _ _ _ (by rw [hl']; exact hi) (okOf_map_allTrue _ _ (by rw [hl]; exact hi))
+      (by rw [hl']; exact okOf_map_allTrue _ _ (by rw [hl]; exact Nat.mod_lt _ hn))
+      (by rw [hl']; exact okOf_map_allTrue _ _ (by rw [hl]; exact Nat.mod_lt _ hn))]
+    exact hcentred _ hl' (fun k hk => by rw [valOf_map_allTrue, valOf_lineCells f ax i c k hk])
+  | true =>
+    simp only [if_true]
+    rcases hv with hv | ⟨h1, h2, h3⟩
+    · exact absurd hv (by simp)
+    · rw [ring_centred_at _ _ _ _ (by rw [hl]; exact hi) (by rw [okOf_lineCells f ax i c _ hi]; exact h1)
+        (by rw [hl, okOf_lineCells f ax i c _ (Nat.mod_lt _ hn)]; exact h2)
+        (by rw [hl, okOf_lineCells f ax i c _ (Nat.mod_lt _ hn)]; exact h3)]
+      exact hcentred _ hl (fun k hk => valOf_lineCells f ax i c k hk)
+
+/-- the order as the Python caller passes it (any integer): 1 and 2 are the two admissible calls, every
+other integer — negative ones too — is a `NotImplementedError` before the name is even looked at -/
+theorem diffDirI_spec (f : Fld) (dir : String) (order : Int) (r : Bool) :
+    diffDirI f dir order r
+      = if order = 1 then diffDir f dir 1 r else if order = 2 then diffDir f dir 2 r else .error .notImpl := by
+  unfold diffDirI
+  by_cases h1 : order = 1
+  · subst h1; simp
+  · by_cases h2 : order = 2
+    · subst h2; simp
+    · rw [if_pos ⟨h1, h2⟩, if_neg h1, if_neg h2]
+
+/-- `ring_centred_at` on the ring of finding D17 (`[7,1,4,9,2]`, mask `[1,1,1,0,1]`): cell 0 sits next to the
+seam inside the run `4,0,1,2` that crosses it; both its ring neighbours (4 and 1) are valid -/
+example : okOf exRing 0 = true ∧ okOf exRing ((0 + 1) % exRing.length) = true ∧
+    okOf exRing ((0 + exRing.length - 1) % exRing.length) = true ∧
+    centred 1 (1/2) exRing.length (valOf exRing) 0 = -1 := by
+  refine ⟨by decide, by decide, by decide, ?_⟩
+  simp [centred, exRing, valOf]
+  norm_num
+
+
+/-- `ring_short_run_zero` / `line_short_run_zero`: in the periodic line with mask `[1,0,1,1,0]` cell 0 is a run of its
+own also across the seam (the last cell is invalid): its window has one cell -/
+example : ringBefore (okOf [((3 : Rat), true), (1, false), (4, true), (1, true), (5, false)]) 5 0
+    + ringFrom (okOf [((3 : Rat), true), (1, false), (4, true), (1, true), (5, false)]) 5 0 ≤ 1 := by decide
+
+/-- `diff_short_run_zero_any` / `diff_invalid_zero_any` on `exF` (5×2 cells, cell (3,1) invalid): along `x` the cell (4,1) is
+a run of one cell, and (3,1) does not count as valid when the restriction is on -/
+example : fldB exF 0 true [4, 1] + fldA exF 0 true [4, 1] ≤ 1 ∧ fldOk exF true [3, 1] = false ∧
+    [4, 1].getD 0 0 < exF.mesh.nAt 0 ∧ ∃ g, diff exF 0 1 true = .ok g :=
+  ⟨by decide, by decide, by decide, (diff_accepts_iff exF 0 1 true).mpr ⟨Or.inl rfl, by decide⟩⟩
+
+/-- `diff_periodic_centred_at` on `exP` (periodic along `x`, cell (3,0) invalid): the cell (0,0) next to the seam and its
+two ring neighbours (5,0) and (1,0) are valid although the line has a hole -/
+example : periodicAx exP 0 = true ∧ exP.valid.line 0 [0, 0] ([0, 0].getD 0 0) = true ∧
+    exP.valid.line 0 [0, 0] (([0, 0].getD 0 0 + 1) % exP.mesh.nAt 0) = true ∧
+    exP.valid.line 0 [0, 0] (([0, 0].getD 0 0 + exP.mesh.nAt 0 - 1) % exP.mesh.nAt 0) = true ∧
+    exP.valid.line 0 [0, 0] 3 = false := by decide
+
+/-- the mesh and validity hypotheses of `diff_locality_any` / `diff_linFld` are met by two DIFFERENT fields: `exF` and `exG`
+share mesh and validity along every grid line and hold different values -/
+example : exF.mesh = exG.mesh ∧ (∀ j, j < exF.mesh.nAt 1 → exF.valid.line 1 [0, 0] j = exG.valid.line 1 [0, 0] j) ∧
+    exF.data.get [0, 1] ≠ exG.data.get [0, 1] := by
+  refine ⟨rfl, fun j _ => rfl, ?_⟩
+  simp [exF, exG]
+
+
+/-! ## The window of the code against the ring run of the property text -/
+
+/-- **Finding D17 in one line: the window `Field.diff` differentiates around a cell of a periodic line is the
+cell's RING run (counted cyclically, wherever the seam is) cut ONE cell beyond the seam on each side** — for every
+mask, every line length, every position. -/
+theorem ring_window_is_cut_run (v : Nat → Bool) (L j : Nat) (hj : j < L) :
+    ringBefore v L j = min (cycBefore v L j) (j + 1) ∧ ringFrom v L j = min (cycFrom v L j) (L - j + 1) :=
+  ⟨ringBefore_eq_min v L j hj, ringFrom_eq_min v L j hj⟩
+
+/-- **Where the seam does not cut the ring run of a cell** (the run extends at most one cell beyond the seam on
+each side) **the code computes what the property asks for**: the run stencil over the cell's whole ring run
+(`idealRingSpec`, a description that does not mention the stored line at all). -/
+theorem ring_ideal_of_uncut (o : Nat) (h : Rat) (cells : List (Rat × Bool)) (j : Nat) (hj : j < cells.length)
+    (hb : cycBefore (okOf cells) cells.length j ≤ j + 1) (ha : cycFrom (okOf cells) cells.length j ≤ cells.length - j + 1) :
+    (diffRing o h cells).getD j 0 = idealRingSpec o h cells.length (valOf cells) (okOf cells) j := by
+  rw [diffRing_getD_ringSpec o h cells j hj]
+  exact ringSpec_eq_ideal o h _ _ _ j hj hb ha
+
+/-- **Shift-equivariance cell by cell, every mask**: the derivative of the ring stored from cell `s` on agrees at
+position `j` with the derivative of the ring as given at cell `(j + s) mod L` whenever the ring run of that cell
+is cut by neither seam (it extends at most one cell beyond either).  (`ring_shift_off_seam`,
+`ring_shift_off_seam_one` and `ring_rot_no_three` are instances; for the cells of a run that IS cut the statement
+fails, `ring_shift_iff`.) -/
+theorem ring_rot_uncut (o : Nat) (h : Rat) (cells : List (Rat × Bool)) (s j : Nat) (hj : j < cells.length)
+    (hb : cycBefore (okOf cells) cells.length ((j + s) % cells.length) ≤ min (j + 1) ((j + s) % cells.length + 1))
+    (ha : cycFrom (okOf cells) cells.length ((j + s) % cells.length)
+        ≤ min (cells.length - j + 1) (cells.length - (j + s) % cells.length + 1)) :
+    (diffRing o h (rotCells cells s)).getD j 0 = (diffRing o h cells).getD ((j + s) % cells.length) 0 := by
+  have hL : 0 < cells.length := by omega
+  have hJ : (j + s) % cells.length < cells.length := Nat.mod_lt _ hL
+  rw [diffRing_rot_getD o h cells s j hj,
+    ringSpec_eq_ideal o h _ _ _ j hj (by rw [cycBefore_rot _ _ _ _ hL]; omega) (by rw [cycFrom_rot]; omega),
+    idealRingSpec_rot o h _ (valOf cells) (okOf cells) s j hj (by omega),
+    diffRing_getD_ringSpec o h cells _ hJ, ringSpec_eq_ideal o h _ _ _ _ hJ (by omega) (by omega)]
+
+/-- on the ring of finding D17 (mask `[1,1,1,0,1]`) the ring run of cell 4 is `4,0,1,2`: nothing before it, four
+cells from it on — more than the `5 - 4 + 1 = 2` the stored line lets through, so it IS cut; cell 1 of the same
+run has two cells before it (`0` and, beyond the seam, `4`) and two from it on, and is not cut -/
+example : cycBefore (okOf exRing) 5 4 = 0 ∧ cycFrom (okOf exRing) 5 4 = 4 ∧ ringFrom (okOf exRing) 5 4 = 2 ∧
+    cycBefore (okOf exRing) 5 1 = 2 ∧ cycFrom (okOf exRing) 5 1 = 2 ∧
+    cycBefore (okOf exRing) 5 1 ≤ 1 + 1 ∧ cycFrom (okOf exRing) 5 1 ≤ 5 - 1 + 1 := by decide
 
 end DFV.C04
